@@ -103,7 +103,7 @@ func calcDewPoint(temperature, humidity float64) float64 {
 	ea = calcVaporPressure(temperature) * humidity / 100 // actual vapour pressure
 	if ea > 0 {
 		Func := math.Log(ea / 0.6108)
-		return 237.3 * Func / (17.27 - Func)
+		return math.Min(temperature, 237.3*Func/(17.27-Func))
 	}
 	return math.NaN()
 }
